@@ -6,6 +6,7 @@ that it links as a native executable.
 import Compress.Drv.XFlateReader
 import Compress.Drv.Meta
 import Compress.Drv.XFlateOpen
+import Compress.Drv.XFlateWriter
 
 open Compress.Util Compress.Drv
 
@@ -20,6 +21,7 @@ def processLine (line : String) : String :=
       match kind with
       | "xr" => handleXr kv
       | "xo" => handleXo kv
+      | "xw" => handleXw kv
       | "menc" => handleMenc kv
       | "mdec" => handleMdec kv
       | "mrs" => handleMrs kv
